@@ -579,9 +579,19 @@ def check_config_attrs(ctx: CheckContext, p: Program, r: Resolver, funcs: List[F
                 b = r.lookup(f, f.module, n.value.id)
                 if b is not None and b.kind == "module":
                     module_as_config.append(f"{f.module.relpath}:{n.value.lineno} {n.arg}={n.value.id} is the module {b.target}")
+    # a declared attribute: one obligation per (function, attribute) use.  An UNDECLARED attribute is one defect of the class, wherever it is read:
+    # it is keyed by the attribute (so moving the reading code into a helper does not make it a "new" finding) and lists every site.
+    undeclared: Dict[str, List[Tuple[ast.AST, FuncInfo]]] = {}
     for (q, attr), (ok, n, f) in sorted(seen.items()):
-        ctx.ob(rule, f"{q}:{attr}", f"{f.module.relpath}:{n.lineno}", ok,
-               "" if ok else f"Configuration has no attribute '{attr}' (only a commented-out default exists): {f.name} raises AttributeError as soon as this path runs")
+        if ok:
+            ctx.ob(rule, f"{q}:{attr}", f"{f.module.relpath}:{n.lineno}", True, "")
+        else:
+            undeclared.setdefault(attr, []).append((n, f))
+    for attr, sites in sorted(undeclared.items()):
+        n, f = sites[0]
+        where = ", ".join(f"{g.name} ({g.module.relpath}:{m.lineno})" for m, g in sites)
+        ctx.ob(rule, f"Configuration.{attr}", f"{f.module.relpath}:{n.lineno}", False,
+               f"Configuration has no attribute '{attr}' (only a commented-out default exists): AttributeError as soon as one of these paths runs: {where}")
     ctx.info["observation_module_passed_as_configuration"] = module_as_config
     return len(seen)
 
